@@ -1,6 +1,6 @@
 (* The generated link schema of content.Successors is exactly the property's link relation, and
    closure over CopySpec's [reach] is closure over those links. *)
-From Oras Require Import Base.Prelude Generated.GC01 Model.CopySpec Model.CopyLinks Proofs.CopySpec.
+From Oras Require Import Base.Prelude Generated.GC01 Model.CopySpec Model.CopyTop Model.CopyLinks Proofs.CopySpec.
 Local Open Scope nat_scope.
 
 (* x is linked from the manifest with fields f by one of the link kinds of its media type *)
@@ -92,3 +92,34 @@ Proof.
   exact (closure_lemma (graph_of n flds dkey) c d0 tr st Hc Hm Ha Hr x (lreach_reach _ _ Hx)).
 Qed.
 End Links.
+
+(* Copy as a whole: whatever root the prologue arrives at (resolution, MapRoot, platform selection),
+   a successful run from that root replicates its graph and makes the effective reference resolve
+   to it; and with a platform the root is the first matching entry of the mapped manifest list *)
+Lemma copy_top_lemma (g : graph) (dflt opt : Z) (refpusher mount : bool) (cached0 d0 : list node)
+      (tags0 : str -> option node) (srcRef dstRef : str)
+      (resolved : option node) (user_map : option (node -> option node)) (platform : option plat)
+      (entries_of : node -> option (list (node * option plat))) (root : node) tr st :
+  copy_root resolved user_map platform entries_of = Some root ->
+  closed_nodes g d0 -> mt_consistent g ->
+  accepts g (copy_cfg dflt opt refpusher mount root cached0) d0 tr = Some st ->
+  returned st = Some true ->
+  tags_after tags0 (eff_ref srcRef dstRef) st (eff_ref srcRef dstRef) = Some root /\
+  (forall n, reach g root n -> has g (dst st) n = true).
+Proof.
+  intros _ Hc Hm Ha Hr. split.
+  - exact (copy_tagged_lemma g dflt opt refpusher mount root cached0 d0 tags0 srcRef dstRef tr st Ha Hr).
+  - exact (closure_lemma g _ d0 tr st Hc Hm Ha Hr).
+Qed.
+
+Lemma copy_root_platform resolved platform_want entries_of r es root :
+  resolved = Some r -> entries_of r = Some es ->
+  copy_root resolved None (Some platform_want) entries_of = Some root ->
+  select_manifest es platform_want = Some root.
+Proof.
+  intros -> He. unfold copy_root, prologue. now rewrite He.
+Qed.
+
+Lemma copy_root_fails_unresolved user_map platform entries_of :
+  copy_root None user_map platform entries_of = None.
+Proof. reflexivity. Qed.
